@@ -1252,10 +1252,10 @@ impl OverlayFs {
                 delete_whiteout = true;
             }
 
-            // Set opaque if child dir has lower layers.
-            if !n.upper_layer_only() {
-                set_opaque = true;
-            }
+            // The new directory replaces a whiteout: whatever the lower layers hold under
+            // this name must stay hidden, also for an instance started later over the same
+            // directories, so the directory is always made opaque.
+            set_opaque = true;
         }
 
         // Copy parent node up if necessary.
